@@ -30,6 +30,17 @@ def shrink(tape_values, reproduces, max_runs=1500, max_seconds=60.0):
     if first is None:
         return list(tape_values), runs[0], False
     best = _strip(first) if len(_strip(first)) <= len(best) else best
+    # 0. cut the tail: decisions after the violating step rarely matter (they replay as zeros); binary search the
+    #    shortest prefix that still reproduces
+    lo, hi = 0, len(best)
+    while lo < hi:
+        mid = (lo + hi) // 2
+        if attempt(best[:mid]) is not None:
+            hi = mid
+        else:
+            lo = mid + 1
+    if hi < len(best) and attempt(best[:hi]) is not None:
+        best = _strip(best[:hi])
     improved = True
     while improved and runs[0] < max_runs and time.time() - start <= max_seconds:
         improved = False
